@@ -485,6 +485,11 @@ impl World {
                 }
                 true
             }
+            // a permit nobody is waiting for yet: the next hook that reaches its gate does not suspend
+            ["pregate"] => {
+                self.sh.gate.add_permits(1);
+                true
+            }
             ["tick"] => true,
             _ => false,
         }
